@@ -83,6 +83,9 @@ def make_data(kind, rng, variant=0):
     if kind == "clus":
         X = numpy.vstack([r.randn(n // 2, d) + 3, r.randn(n - n // 2, d) - 3])
         return X, None, None
+    if kind == "clus2":
+        X = numpy.vstack([r.randn(n // 2, 2) + 3, r.randn(n - n // 2, 2) - 3])
+        return X, None, None
     if kind == "nonneg":
         X = r.rand(n, 4) + 0.1
         return X, None, None
@@ -170,6 +173,10 @@ def build_menu():
     E.append(Entry("KMeansL1L2[L1]", "KMeansL1L2",
                    lambda inner=None: M.KMeansL1L2(2, norm="L1", random_state=4, n_init=2),
                    "clus", ["predict", "transform"]))
+    E.append(Entry("KMeansL1L2[L1,init-array]", "KMeansL1L2",
+                   lambda inner=None: M.KMeansL1L2(2, norm="L1", n_init=3, random_state=4,
+                                                   init=numpy.array([[2.5, 2.5], [-2.5, -2.5]])),
+                   "clus2", ["predict", "transform"]))
     E.append(Entry("KMeansL1L2[L2]", "KMeansL1L2",
                    lambda inner=None: M.KMeansL1L2(2, norm="L2", random_state=4, n_init=2),
                    "clus", ["predict", "transform"]))
@@ -177,7 +184,7 @@ def build_menu():
         for k0 in (True, False):
             E.append(Entry("ConstraintKMeans[%s,kmeans0=%s]" % (strat, k0), "ConstraintKMeans",
                            lambda inner=None, strat=strat, k0=k0: M.ConstraintKMeans(
-                               2, strategy=strat, kmeans0=k0, random_state=5, n_init=2, max_iter=40),
+                               2, strategy=strat, kmeans0=k0, random_state=5, n_init=2, max_iter=41),
                            "clus", ["predict", "transform"]))
     E.append(Entry("ClassifierAfterKMeans", "ClassifierAfterKMeans",
                    lambda inner=None: M.ClassifierAfterKMeans(estimator=clf(inner),
@@ -188,6 +195,15 @@ def build_menu():
                                                                        min_samples_leaf=3),
                    "clf", ["predict", "predict_proba", "decision_path"], "clf"))
     # strategy='perpendicular' raises NotImplementedError in fit_improve (unfinished upstream): not in the menu
+    # a STATEFUL inner estimator (warm_start): anything fitted in place instead of on a clone shows in a refit
+    E.append(Entry("DecisionTreeLogisticRegression[warm_start]", "DecisionTreeLogisticRegression",
+                   lambda inner=None: M.DecisionTreeLogisticRegression(
+                       estimator=LogisticRegression(warm_start=True, max_iter=4), max_depth=3, min_samples_leaf=3),
+                   "clf", ["predict", "predict_proba"]))
+    E.append(Entry("PiecewiseClassifier[warm_start]", "PiecewiseClassifier",
+                   lambda inner=None: M.PiecewiseClassifier("bins", estimator=LogisticRegression(warm_start=True, max_iter=4),
+                                                            random_state=3),
+                   "clf", ["predict", "predict_proba"]))
     E.append(Entry("ExtendedFeatures", "ExtendedFeatures",
                    lambda inner=None: M.ExtendedFeatures(poly_degree=2),
                    "reg", ["transform"]))
@@ -217,6 +233,13 @@ def build_menu():
                        lambda inner=None, closest=closest: M.PermutationReciprocalTransformer(random_state=1,
                                                                                                closest=closest),
                        "labels", ["transform_xy"]))
+    # random_state=0 is an integer seed like any other (and falsy)
+    E.append(Entry("PermutationReciprocalTransformer[random_state=0]", "PermutationReciprocalTransformer",
+                   lambda inner=None: M.PermutationReciprocalTransformer(random_state=0),
+                   "labels", ["transform_xy"]))
+    E.append(Entry("PiecewiseClassifier[random_state=0]", "PiecewiseClassifier",
+                   lambda inner=None: M.PiecewiseClassifier("bins", estimator=LogisticRegression(), random_state=0),
+                   "clf3", ["predict", "predict_proba"]))
     E.append(Entry("TransformedTargetRegressor2", "TransformedTargetRegressor2",
                    lambda inner=None: M.TransformedTargetRegressor2(reg(inner), "log"),
                    "target", ["predict"], "reg"))
